@@ -50,7 +50,7 @@ type Stmt struct {
 	K      string    `json:"k"`
 	N      int       `json:"n"`
 	E      string    `json:"e"`
-	It     string    `json:"it"` // for: "range" | "raising"
+	It     string    `json:"it"` // for: "range" | "raising" (KeyError from __next__) | "raisingE" (Exception from __next__)
 	Ln     int       `json:"ln"`
 	Last   int       `json:"last"`
 	Cl     int       `json:"cl"`
@@ -133,8 +133,8 @@ func makePrelude(meta *Rec) *prelude {
 		"            raise ZeroDivisionError()")
 	p.exitLine = len(L)
 	L = append(L, "        return self.xs",
-		"class IT:", "    def __init__(self, n):", "        self.n = n", "    def __iter__(self):", "        return self",
-		"    def __next__(self):", "        if self.n > 0:", "            self.n = self.n - 1", "            return 0", "        raise KeyError()")
+		"class IT:", "    def __init__(self, n, c):", "        self.n = n", "        self.c = c", "    def __iter__(self):", "        return self",
+		"    def __next__(self):", "        if self.n > 0:", "            self.n = self.n - 1", "            return 0", "        raise self.c()")
 	p.nextLine = len(L)
 	p.src = strings.Join(L, "\n") + "\n"
 	return p
@@ -189,7 +189,9 @@ func (r *renderer) block(ss []Stmt, ind string) {
 			}
 		case "for", "while":
 			if s.K == "for" && s.It == "raising" {
-				r.emit(ind, "for i in IT(nxt()):", s.Ln)
+				r.emit(ind, "for i in IT(nxt(), KeyError):", s.Ln)
+			} else if s.K == "for" && s.It == "raisingE" {
+				r.emit(ind, "for i in IT(nxt(), Exception):", s.Ln)
 			} else if s.K == "for" {
 				r.emit(ind, "for i in range(nxt()):", s.Ln)
 			} else {
